@@ -180,6 +180,9 @@ impl ConnModel {
             }
         }
         let mut bad = false;
+        if std::env::var("VERIF_E1_TRACE").is_ok() {
+            eprintln!("trace {:?} -> viol {:?} logs {:?}", path, o.viol.iter().map(|v| &v.0).collect::<Vec<_>>(), o.logs.iter().map(|l| l.iter().map(|x| format!("{:?}", x.ret)).collect::<Vec<_>>()).collect::<Vec<_>>());
+        }
         for (k, d) in &o.viol {
             let replay = json!({"engine": "e1", "scenario": &*self.scn, "path": path});
             if self.rep.violation(k, &format!("[{}] {}", self.scn.name, d), replay) {
